@@ -1,8 +1,9 @@
 /* Secure-erase client (C18): a caller in which the erased buffer is dead after the call.  One binary per
  * (optimisation level, link mode, function, storage, parameter kind): a single call site, as in a real caller; compiled with the flags under test (and -flto together with
  * the library in the LTO modes).  -DFN=1..7 selects the function, -DSTORAGE=0..2 the victim; with -DCONSTP the sizes / offset / value are compile-time
- * constants (-DCN -DCOFF -DCV), otherwise they come from the opaque observer.  Three victims: a stack buffer (observed
- * after its frame is gone), a heap block (observed when it reaches free) and a static object (observed at the end). */
+ * constants (-DCN -DCOFF -DCV), otherwise they come from the opaque observer.  Four victims: a stack buffer whose
+ * address was handed to I/O-like opaque code (observed after its frame is gone), a heap block (observed when it reaches free), a
+ * static object (observed at the end), and a stack buffer that never leaves the optimiser's view (found by scanning the dead stack). */
 #include <stdlib.h>
 #include <stdint.h>
 #include "safe_mem_lib.h"
@@ -17,6 +18,8 @@ extern void obs_fill(void *p, size_t len);
 extern unsigned obs_use(const void *p, size_t len);
 extern void obs_register(int slot, const volatile void *p, size_t len);
 extern void obs_snapshot(int slot);
+extern void obs_pretouch(void);
+extern void obs_scan_stack(int slot, size_t len);
 extern void obs_print(int slot, const char *storage, int fn, int w, int constp);
 extern volatile long g_rc[3];
 extern volatile unsigned g_sum;
@@ -78,6 +81,31 @@ __attribute__((noinline)) static void victim_heap(void) {
     g_rc[1] = ERASE(buf + PAD + POFF, PN, PV);
     free(buf);
 }
+#elif STORAGE == 3
+/* a buffer whose address never leaves this translation unit: the secret is produced and consumed by code the optimiser
+ * sees completely (a key derived locally); the observer finds the dead frame by scanning the stack for the secret. */
+static volatile unsigned vk = 7;
+__attribute__((noinline)) static void lfill(unsigned char *p, size_t n) {
+    unsigned k = vk; size_t i;
+    for (i = 0; i < n; i++) p[i] = (unsigned char)(1 + (i * k) % 97);
+}
+__attribute__((noinline)) static unsigned luse(const unsigned char *p, size_t n) {
+    unsigned s = 0; size_t i;
+    for (i = 0; i < n; i++) s = s * 31 + p[i];
+    return s;
+}
+__attribute__((noinline)) static void victim_stack(void) {
+    unsigned char buf[BUFSZ] __attribute__((aligned(16)));
+    lfill(buf, BUFSZ);
+    g_sum += luse(buf, BUFSZ);
+    g_rc[0] = ERASE(buf + PAD + POFF, PN, PV);
+}
+__attribute__((noinline)) static void tramp(void) {
+    volatile char spacer[4096];
+    spacer[0] = 1; spacer[4095] = 1;
+    victim_stack();
+    spacer[1] = 2;
+}
 #else
 static unsigned char sbuf[BUFSZ] __attribute__((aligned(16)));
 __attribute__((noinline)) static void victim_static(void) {
@@ -96,6 +124,11 @@ int main(int argc, char **argv) {
 #elif STORAGE == 1
     victim_heap();
     obs_print(1, "heap", FN, W, ISCONST);
+#elif STORAGE == 3
+    obs_pretouch();
+    tramp();
+    obs_scan_stack(0, BUFSZ);
+    obs_print(0, "local", FN, W, ISCONST);
 #else
     victim_static();
     obs_snapshot(2);
